@@ -42,6 +42,7 @@ def unwind (fs : List PatchFrame) (g : Globals) : Globals := fs.foldl (fun g f =
 /-- Steps that can occur in a well-formed ladder on a tree whose builtins stay private. -/
 def safePrim : Prim → Bool
   | .touchBuiltins => false
+  | .hitEmpty => false          -- popping a stack that is empty: not its own frame
   | .unknown => false
   | _ => true
 
@@ -106,6 +107,129 @@ theorem unwind_applyPrims (env : Env) (hr : env.probe.stopRestores = true) (ht :
   | cons q qs ih =>
     simp only [List.all_cons, Bool.and_eq_true] at hq
     rw [applyPrims_cons, ih _ hq.2, unwind_applyPrim env hr ht s q hq.1]
+
+/-! ### Data layer: an execution touches only what it pushed itself -/
+
+/-- What the executions nested in another one do to the sandbox leaves both stacks and the borrowed globals as
+    they found them (the statement of C05 for an execution that starts in the middle of another one). -/
+def Framed (inner : St → St) : Prop :=
+  ∀ s, (inner s).patches = s.patches ∧ (inner s).stdouts = s.stdouts ∧ (inner s).g = s.g
+
+theorem framed_id : Framed id := fun _ => ⟨rfl, rfl, rfl⟩
+
+/-- Starting `n` frames above the part of the patch stack that is not ours, never stop a patch frame that is
+    not ours. -/
+def strictP : List Prim → Nat → Bool
+  | [], _ => true
+  | q :: qs, n => (q != .stopPatches || n != 0) && strictP qs (depthP q n)
+
+def strictO : List Prim → Nat → Bool
+  | [], _ => true
+  | q :: qs, n => (q != .popStdout || n != 0) && strictO qs (depthO q n)
+
+theorem applyPrimsN_cons (env : Env) (inner : St → St) (s : St) (q : Prim) (qs : List Prim) :
+    applyPrimsN env inner s (q :: qs) = applyPrimsN env inner (applyPrimN env inner s q) qs := rfl
+
+theorem applyPrimN_patches (env : Env) (hr : env.probe.stopRestores = true) (ht : TraceOK env.style env.nested)
+    (inner : St → St) (hin : Framed inner) (s : St) (q : Prim) (hq : safePrim q = true)
+    (top rest : List PatchFrame) (hp : s.patches = top ++ rest) (hst : q = .stopPatches → top ≠ []) :
+    ∃ top', (applyPrimN env inner s q).patches = top' ++ rest ∧ top'.length = depthP q top.length ∧
+      unwind top' (applyPrimN env inner s q).g = unwind top s.g := by
+  cases q <;> try (simp [safePrim] at hq)
+  case startPatches =>
+    refine ⟨{ stdout := if env.probe.patchesStdout then some s.g.stdout else none,
+               sleep := if env.probe.patchesSleep then some s.g.sleep else none,
+               modules := if env.probe.patchesModules then some s.g.modules else none } :: top,
+            by simp [applyPrimN, applyPrim, hp], by simp [depthP], ?_⟩
+    simp only [applyPrimN, applyPrim, unwind, List.foldl_cons]
+    rw [restore_install]
+  case stopPatches =>
+    cases top with
+    | nil => exact absurd rfl (hst rfl)
+    | cons f t =>
+      refine ⟨t, by simp [applyPrimN, applyPrim, hp], by simp [depthP], ?_⟩
+      simp [applyPrimN, applyPrim, hp, unwind, hr]
+  case exec traced =>
+    obtain ⟨h1, _, h3⟩ := hin s
+    have hl : env.style.leaks env.nested = false := ht
+    refine ⟨top, ?_, by simp [depthP], ?_⟩
+    · simp [applyPrimN, applyPrim, hl, h1, hp]
+    · simp [applyPrimN, applyPrim, hl, h3]
+  all_goals exact ⟨top, by simp [applyPrimN, applyPrim, hp], by simp [depthP], by simp [applyPrimN, applyPrim]⟩
+
+theorem applyPrimN_stdouts (env : Env) (inner : St → St) (hin : Framed inner) (s : St) (q : Prim)
+    (top rest : List Nat) (hp : s.stdouts = top ++ rest) (hst : q = .popStdout → top ≠ []) :
+    ∃ top', (applyPrimN env inner s q).stdouts = top' ++ rest ∧ top'.length = depthO q top.length := by
+  cases q
+  case pushStdout => exact ⟨s.fresh :: top, by simp [applyPrimN, applyPrim, hp], by simp [depthO]⟩
+  case popStdout =>
+    cases top with
+    | nil => exact absurd rfl (hst rfl)
+    | cons f t => exact ⟨t, by simp [applyPrimN, applyPrim, hp], by simp [depthO]⟩
+  case exec traced =>
+    obtain ⟨_, h2, _⟩ := hin s
+    refine ⟨top, ?_, by simp [depthO]⟩
+    simp only [applyPrimN, applyPrim]
+    split <;> simp [h2, hp]
+  case stopPatches =>
+    refine ⟨top, ?_, by simp [depthO]⟩
+    simp only [applyPrimN, applyPrim]
+    split <;> simp [hp]
+  all_goals exact ⟨top, by simp [applyPrimN, applyPrim, hp], by simp [depthO]⟩
+
+theorem applyPrimsN_patches (env : Env) (hr : env.probe.stopRestores = true) (ht : TraceOK env.style env.nested)
+    (inner : St → St) (hin : Framed inner) (qs : List Prim) (s : St) (hq : qs.all safePrim = true)
+    (top rest : List PatchFrame) (hp : s.patches = top ++ rest) (hst : strictP qs top.length = true) :
+    ∃ top', (applyPrimsN env inner s qs).patches = top' ++ rest ∧
+      top'.length = qs.foldl (fun n q => depthP q n) top.length ∧
+      unwind top' (applyPrimsN env inner s qs).g = unwind top s.g := by
+  induction qs generalizing s top with
+  | nil => exact ⟨top, hp, rfl, rfl⟩
+  | cons q qs ih =>
+    simp only [List.all_cons, Bool.and_eq_true] at hq
+    simp only [strictP, Bool.and_eq_true, Bool.or_eq_true, bne_iff_ne, ne_eq] at hst
+    have hne : q = .stopPatches → top ≠ [] := by
+      intro hqe
+      rcases hst.1 with h | h
+      · exact absurd hqe h
+      · intro ht0; apply h; simp [ht0]
+    obtain ⟨t1, p1, l1, u1⟩ := applyPrimN_patches env hr ht inner hin s q hq.1 top rest hp hne
+    obtain ⟨t2, p2, l2, u2⟩ := ih (applyPrimN env inner s q) hq.2 t1 p1 (by rw [l1]; exact hst.2)
+    refine ⟨t2, by rw [applyPrimsN_cons]; exact p2, ?_, ?_⟩
+    · rw [l2, l1]; rfl
+    · rw [applyPrimsN_cons, u2, u1]
+
+theorem applyPrimsN_stdouts (env : Env) (inner : St → St) (hin : Framed inner) (qs : List Prim) (s : St)
+    (top rest : List Nat) (hp : s.stdouts = top ++ rest) (hst : strictO qs top.length = true) :
+    ∃ top', (applyPrimsN env inner s qs).stdouts = top' ++ rest ∧
+      top'.length = qs.foldl (fun n q => depthO q n) top.length := by
+  induction qs generalizing s top with
+  | nil => exact ⟨top, hp, rfl⟩
+  | cons q qs ih =>
+    simp only [strictO, Bool.and_eq_true, Bool.or_eq_true, bne_iff_ne, ne_eq] at hst
+    have hne : q = .popStdout → top ≠ [] := by
+      intro hqe
+      rcases hst.1 with h | h
+      · exact absurd hqe h
+      · intro ht0; apply h; simp [ht0]
+    obtain ⟨t1, p1, l1⟩ := applyPrimN_stdouts env inner hin s q top rest hp hne
+    obtain ⟨t2, p2, l2⟩ := ih (applyPrimN env inner s q) t1 p1 (by rw [l1]; exact hst.2)
+    exact ⟨t2, by rw [applyPrimsN_cons]; exact p2, by rw [l2, l1]; rfl⟩
+
+/-- A balanced, strict, safe list of steps - with framed nested executions - leaves both stacks and the borrowed
+    globals exactly as they were, WHATEVER was on the stacks. -/
+theorem applyPrimsN_frames (env : Env) (hr : env.probe.stopRestores = true) (ht : TraceOK env.style env.nested)
+    (inner : St → St) (hin : Framed inner) (qs : List Prim) (hq : qs.all safePrim = true)
+    (hsp : strictP qs 0 = true) (hso : strictO qs 0 = true)
+    (hbp : qs.foldl (fun n q => depthP q n) 0 = 0) (hbo : qs.foldl (fun n q => depthO q n) 0 = 0) (s : St) :
+    (applyPrimsN env inner s qs).patches = s.patches ∧ (applyPrimsN env inner s qs).stdouts = s.stdouts ∧
+      (applyPrimsN env inner s qs).g = s.g := by
+  obtain ⟨t1, p1, l1, u1⟩ := applyPrimsN_patches env hr ht inner hin qs s hq [] s.patches rfl hsp
+  obtain ⟨t2, p2, l2⟩ := applyPrimsN_stdouts env inner hin qs s [] s.stdouts rfl hso
+  have e1 : t1 = [] := List.eq_nil_of_length_eq_zero (by rw [l1]; exact hbp)
+  have e2 : t2 = [] := List.eq_nil_of_length_eq_zero (by rw [l2]; exact hbo)
+  subst e1; subst e2
+  exact ⟨p1, p2, u1⟩
 
 /-- The exceptions recorded successfully, in order. -/
 def captures : List Prim → List Who
@@ -173,15 +297,328 @@ theorem mem_allSigs (sig : Sig) : sig ∈ allSigs := by
 theorem forall_sig_of_all {P : Sig → Bool} (h : allSigs.all P = true) (sig : Sig) : P sig = true :=
   List.all_eq_true.mp h sig (mem_allSigs sig)
 
-/-! ### Decidable checks on a ladder -/
-
+/-- Both stacks empty at entry. -/
 def base0 : Base := { p0 := 0, o0 := 0 }
 
-/-- C05 for one signature: from empty stacks, the ladder ends with empty stacks, and only ever performs
-    steps the invariant lemma covers - whether it returns or propagates. -/
+/-! ### Control layer: the plan does not depend on the depth of the stacks it starts from -/
+
+theorem depthPs_emit (b : Base) (c : Ctl) (q : Prim) : depthPs b (emit c q) = depthP q (depthPs b c) := by
+  simp [depthPs, emit, List.foldl_append]
+
+theorem depthOs_emit (b : Base) (c : Ctl) (q : Prim) : depthOs b (emit c q) = depthO q (depthOs b c) := by
+  simp [depthOs, emit, List.foldl_append]
+
+/-- No pop of an empty stack so far. -/
+def NoHit (c : Ctl) : Prop := Prim.hitEmpty ∉ c
+
+theorem noHit_of_emit {c : Ctl} {q : Prim} (h : NoHit (emit c q)) : NoHit c := by
+  intro hm; exact h (by simp [emit, hm])
+
+theorem not_noHit_emit_hit (c : Ctl) : ¬ NoHit (emit c .hitEmpty) := by
+  intro h; exact h (by simp [emit])
+
+/-- The depths seen from base `b` are those seen from empty stacks, shifted. -/
+def Shift (b : Base) (c : Ctl) : Prop :=
+  depthPs b c = depthPs base0 c + b.p0 ∧ depthOs b c = depthOs base0 c + b.o0
+
+theorem shift_nil (b : Base) : Shift b [] := by simp [Shift, depthPs, depthOs, base0]
+
+theorem shift_emit {b : Base} {c : Ctl} (h : Shift b c) (q : Prim)
+    (hp : q = .stopPatches → depthPs base0 c ≠ 0) (ho : q = .popStdout → depthOs base0 c ≠ 0) :
+    Shift b (emit c q) := by
+  obtain ⟨h1, h2⟩ := h
+  refine ⟨?_, ?_⟩
+  · rw [depthPs_emit, depthPs_emit, h1]
+    cases q <;> simp [depthP] at hp ⊢ <;> omega
+  · rw [depthOs_emit, depthOs_emit, h2]
+    cases q <;> simp [depthO] at ho ⊢ <;> omega
+
+
+/-! Whatever is in the control state stays in it (steps only append). -/
+
+theorem mem_emit {c : Ctl} {x : Prim} (q : Prim) (h : x ∈ c) : x ∈ emit c q := by simp [emit, h]
+
+theorem stepPrim_mono (m : MockProbe) (b : Base) (c : Ctl) (q x : Prim) (h : x ∈ c) :
+    x ∈ (stepPrim m b c q).1 := by
+  cases q <;> simp only [stepPrim] <;> (repeat' split) <;> simp [emit, h]
+
+theorem stepPrims_mono (m : MockProbe) (b : Base) (qs : List Prim) (c : Ctl) (x : Prim) (h : x ∈ c) :
+    x ∈ (stepPrims m b c qs).1 := by
+  induction qs generalizing c with
+  | nil => exact h
+  | cons q qs ih =>
+    have h1 := stepPrim_mono m b c q x h
+    simp only [stepPrims]
+    split
+    · rename_i c' heq
+      rw [heq] at h1
+      exact ih c' h1
+    · exact h1
+
+theorem stepAct_mono (m : MockProbe) (b : Base) (sig : Sig) (cur : Option Who) (c : Ctl) (a : Act) (x : Prim)
+    (h : x ∈ c) : x ∈ (stepAct m b sig cur c a).1 := by
+  cases a <;> simp only [stepAct] <;>
+    first
+    | exact h
+    | exact mem_emit _ h
+    | exact stepPrims_mono m b _ c x h
+    | exact stepPrim_mono m b c _ x h
+    | (repeat' split) <;> first | exact h | exact mem_emit _ h
+
+theorem stepActs_mono (m : MockProbe) (b : Base) (sig : Sig) (cur : Option Who) (as : List Act) (c : Ctl) (x : Prim)
+    (h : x ∈ c) : x ∈ (stepActs m b sig cur c as).1 := by
+  induction as generalizing c with
+  | nil => exact h
+  | cons a as ih =>
+    have h1 := stepAct_mono m b sig cur c a x h
+    simp only [stepActs]
+    split
+    · rename_i c' heq
+      rw [heq] at h1
+      exact ih c' h1
+    · exact h1
+
+
+/-! As long as the run from empty stacks never pops an empty stack, the run from ANY depth is the same. -/
+
+theorem stepPrim_transfer (m : MockProbe) (b : Base) (c : Ctl) (q : Prim) (hs : Shift b c)
+    (hn : NoHit (stepPrim m base0 c q).1) :
+    stepPrim m b c q = stepPrim m base0 c q ∧ Shift b (stepPrim m base0 c q).1 := by
+  cases q
+  case popStdout =>
+    by_cases h0 : depthOs base0 c = 0
+    · exfalso
+      apply hn
+      simp only [stepPrim, h0, if_true]
+      split <;> simp [emit]
+    · have hb : depthOs b c ≠ 0 := by rw [hs.2]; omega
+      simp only [stepPrim, h0, hb, if_false]
+      exact ⟨trivial, shift_emit hs _ (by simp) (fun _ => h0)⟩
+  case stopPatches =>
+    by_cases h0 : depthPs base0 c = 0
+    · exfalso
+      apply hn
+      simp only [stepPrim, h0, if_true]
+      split <;> simp [emit]
+    · have hb : depthPs b c ≠ 0 := by rw [hs.1]; omega
+      simp only [stepPrim, h0, hb, if_false]
+      exact ⟨trivial, shift_emit hs _ (fun _ => h0) (by simp)⟩
+  all_goals exact ⟨rfl, shift_emit hs _ (by simp) (by simp)⟩
+
+theorem stepPrims_transfer (m : MockProbe) (b : Base) (qs : List Prim) (c : Ctl) (hs : Shift b c)
+    (hn : NoHit (stepPrims m base0 c qs).1) :
+    stepPrims m b c qs = stepPrims m base0 c qs ∧ Shift b (stepPrims m base0 c qs).1 := by
+  induction qs generalizing c with
+  | nil => exact ⟨rfl, hs⟩
+  | cons q qs ih =>
+    have hn1 : NoHit (stepPrim m base0 c q).1 := by
+      intro hm
+      apply hn
+      simp only [stepPrims]
+      split
+      · rename_i c' heq
+        rw [heq] at hm
+        exact stepPrims_mono m base0 qs c' _ hm
+      · exact hm
+    obtain ⟨e1, s1⟩ := stepPrim_transfer m b c q hs hn1
+    simp only [stepPrims, e1]
+    split
+    · rename_i c' heq
+      rw [heq] at s1
+      have hn2 : NoHit (stepPrims m base0 c' qs).1 := by
+        simpa only [stepPrims, heq] using hn
+      exact ih c' s1 hn2
+    · rename_i r hne
+      exact ⟨rfl, s1⟩
+
+
+theorem stepAct_transfer (m : MockProbe) (b : Base) (sig : Sig) (cur : Option Who) (c : Ctl) (a : Act)
+    (hs : Shift b c) (hn : NoHit (stepAct m base0 sig cur c a).1) :
+    stepAct m b sig cur c a = stepAct m base0 sig cur c a ∧ Shift b (stepAct m base0 sig cur c a).1 := by
+  cases a
+  case startMocking => exact stepPrims_transfer m b _ c hs hn
+  case stopMocking => exact stepPrims_transfer m b _ c hs hn
+  case stopPatches => exact stepPrim_transfer m b c _ hs hn
+  all_goals
+    refine ⟨rfl, ?_⟩
+    simp only [stepAct]
+    (repeat' split) <;> first
+      | exact hs
+      | exact shift_emit hs _ (by simp) (by simp)
+
+theorem stepActs_transfer (m : MockProbe) (b : Base) (sig : Sig) (cur : Option Who) (as : List Act) (c : Ctl)
+    (hs : Shift b c) (hn : NoHit (stepActs m base0 sig cur c as).1) :
+    stepActs m b sig cur c as = stepActs m base0 sig cur c as ∧ Shift b (stepActs m base0 sig cur c as).1 := by
+  induction as generalizing c with
+  | nil => exact ⟨rfl, hs⟩
+  | cons a as ih =>
+    have hn1 : NoHit (stepAct m base0 sig cur c a).1 := by
+      intro hm
+      apply hn
+      simp only [stepActs]
+      split
+      · rename_i c' heq
+        rw [heq] at hm
+        exact stepActs_mono m base0 sig cur as c' _ hm
+      · exact hm
+    obtain ⟨e1, s1⟩ := stepAct_transfer m b sig cur c a hs hn1
+    simp only [stepActs, e1]
+    split
+    · rename_i c' heq
+      rw [heq] at s1
+      have hn2 : NoHit (stepActs m base0 sig cur c' as).1 := by
+        simpa only [stepActs, heq] using hn
+      exact ih c' s1 hn2
+    · exact ⟨rfl, s1⟩
+
+
+/-- What `planTry` does once the body of the `try` has ended as `r1`: `else:` or the matching handler. -/
+def tryRest (m : MockProbe) (b : Base) (sig : Sig) (d : ExecuteDef) (r1 : Ctl × Option Who) : Ctl × Option Who :=
+  match r1.2 with
+  | none => stepActs m b sig none r1.1 d.orelse
+  | some w =>
+    match d.handlers.find? (fun h => catches sig h.catches w) with
+    | none => (r1.1, some w)
+    | some h => stepActs m b sig (some w) r1.1 h.body
+
+theorem planTry_eq (m : MockProbe) (b : Base) (sig : Sig) (d : ExecuteDef) (c : Ctl) :
+    planTry m b sig d c =
+      (let r2 := tryRest m b sig d (stepActs m b sig none c d.body)
+       let r3 := stepActs m b sig none r2.1 d.final
+       match r3.2 with
+       | some w => (r3.1, some w)
+       | none => (r3.1, r2.2)) := rfl
+
+theorem planTry_fst (m : MockProbe) (b : Base) (sig : Sig) (d : ExecuteDef) (c : Ctl) :
+    (planTry m b sig d c).1 =
+      (stepActs m b sig none (tryRest m b sig d (stepActs m b sig none c d.body)).1 d.final).1 := by
+  rw [planTry_eq]
+  simp only
+  split <;> rfl
+
+theorem tryRest_mono (m : MockProbe) (b : Base) (sig : Sig) (d : ExecuteDef) (r1 : Ctl × Option Who) (x : Prim)
+    (h : x ∈ r1.1) : x ∈ (tryRest m b sig d r1).1 := by
+  unfold tryRest
+  split
+  · exact stepActs_mono m b sig none _ r1.1 x h
+  · split
+    · exact h
+    · exact stepActs_mono m b sig _ _ r1.1 x h
+
+theorem tryRest_transfer (m : MockProbe) (b : Base) (sig : Sig) (d : ExecuteDef) (r1 : Ctl × Option Who)
+    (hs : Shift b r1.1) (hn : NoHit (tryRest m base0 sig d r1).1) :
+    tryRest m b sig d r1 = tryRest m base0 sig d r1 ∧ Shift b (tryRest m base0 sig d r1).1 := by
+  unfold tryRest at hn ⊢
+  split
+  · rename_i h1
+    simp only [h1] at hn
+    exact stepActs_transfer m b sig none _ r1.1 hs hn
+  · rename_i w h1
+    simp only [h1] at hn
+    split
+    · exact ⟨rfl, hs⟩
+    · rename_i h hf
+      simp only [hf] at hn
+      exact stepActs_transfer m b sig (some w) _ r1.1 hs hn
+
+theorem planTry_mono (m : MockProbe) (b : Base) (sig : Sig) (d : ExecuteDef) (c : Ctl) (x : Prim) (h : x ∈ c) :
+    x ∈ (planTry m b sig d c).1 := by
+  rw [planTry_fst]
+  exact stepActs_mono m b sig none _ _ x (tryRest_mono m b sig d _ x (stepActs_mono m b sig none _ c x h))
+
+theorem planTry_transfer (m : MockProbe) (b : Base) (sig : Sig) (d : ExecuteDef) (c : Ctl)
+    (hs : Shift b c) (hn : NoHit (planTry m base0 sig d c).1) :
+    planTry m b sig d c = planTry m base0 sig d c ∧ Shift b (planTry m base0 sig d c).1 := by
+  rw [planTry_fst] at hn
+  have hn2 : NoHit (tryRest m base0 sig d (stepActs m base0 sig none c d.body)).1 :=
+    fun hm => hn (stepActs_mono m base0 sig none _ _ _ hm)
+  have hn1 : NoHit (stepActs m base0 sig none c d.body).1 :=
+    fun hm => hn2 (tryRest_mono m base0 sig d _ _ hm)
+  obtain ⟨e1, s1⟩ := stepActs_transfer m b sig none d.body c hs hn1
+  obtain ⟨e2, s2⟩ := tryRest_transfer m b sig d _ s1 hn2
+  obtain ⟨e3, s3⟩ := stepActs_transfer m b sig none d.final _ s2 hn
+  refine ⟨?_, ?_⟩
+  · rw [planTry_eq, planTry_eq]
+    simp only [e1, e2, e3]
+  · rw [planTry_fst]
+    exact s3
+
+/-- The plan of `_execute` started at any depth of the stacks is the plan started with empty stacks, provided
+    that one never pops an empty stack. -/
+theorem plan_transfer (m : MockProbe) (b : Base) (sig : Sig) (d : ExecuteDef)
+    (hn : NoHit (plan m base0 sig d).1) : plan m b sig d = plan m base0 sig d := by
+  unfold plan at hn ⊢
+  have hs0 : Shift b [] := shift_nil b
+  -- pre
+  cases hpre : stepActs m base0 sig none [] d.pre with
+  | mk c1 o1 =>
+    rw [hpre] at hn
+    cases o1 with
+    | some w =>
+      simp only at hn
+      have := stepActs_transfer m b sig none d.pre [] hs0 (by rw [hpre]; exact hn)
+      rw [this.1, hpre]
+    | none =>
+      simp only at hn
+      cases htry : planTry m base0 sig d c1 with
+      | mk c2 o2 =>
+        rw [htry] at hn
+        have hn1 : NoHit c1 := by
+          cases o2 with
+          | some w =>
+            simp only at hn
+            intro hm; apply hn
+            have := planTry_mono m base0 sig d c1 _ hm
+            rw [htry] at this; exact this
+          | none =>
+            simp only at hn
+            intro hm
+            have h2 := planTry_mono m base0 sig d c1 _ hm
+            rw [htry] at h2
+            have h3 := stepActs_mono m base0 sig none d.post c2 _ h2
+            revert hn
+            cases hpost : stepActs m base0 sig none c2 d.post with
+            | mk c3 o3 =>
+              rw [hpost] at h3
+              cases o3 <;> (intro hn; exact hn h3)
+        obtain ⟨e1, s1⟩ := stepActs_transfer m b sig none d.pre [] hs0 (by rw [hpre]; exact hn1)
+        rw [e1, hpre]
+        simp only
+        rw [hpre] at s1
+        cases o2 with
+        | some w =>
+          simp only at hn
+          obtain ⟨e2, _⟩ := planTry_transfer m b sig d c1 s1 (by rw [htry]; exact hn)
+          rw [e2, htry]
+        | none =>
+          simp only at hn
+          have hn2 : NoHit c2 := by
+            intro hm
+            have h3 := stepActs_mono m base0 sig none d.post c2 _ hm
+            revert hn
+            cases hpost : stepActs m base0 sig none c2 d.post with
+            | mk c3 o3 =>
+              rw [hpost] at h3
+              cases o3 <;> (intro hn; exact hn h3)
+          obtain ⟨e2, s2⟩ := planTry_transfer m b sig d c1 s1 (by rw [htry]; exact hn2)
+          rw [e2, htry]
+          simp only
+          rw [htry] at s2
+          have hn3 : NoHit (stepActs m base0 sig none c2 d.post).1 := by
+            revert hn
+            cases hpost : stepActs m base0 sig none c2 d.post with
+            | mk c3 o3 => cases o3 <;> (intro hn; exact hn)
+          obtain ⟨e3, _⟩ := stepActs_transfer m b sig none d.post c2 s2 hn3
+          rw [e3]
+
+/-! ### Decidable checks on a ladder -/
+
+/-- C05 for one signature: from empty stacks, the ladder ends with empty stacks, only ever performs
+    steps the invariant lemma covers (in particular it never pops a stack that is empty), and never goes below
+    the depth it started at - whether it returns or propagates. -/
 def checkC05 (m : MockProbe) (d : ExecuteDef) (sig : Sig) : Bool :=
   let r := plan m base0 sig d
-  depthPs base0 r.1 == 0 && depthOs base0 r.1 == 0 && r.1.all safePrim
+  depthPs base0 r.1 == 0 && depthOs base0 r.1 == 0 && r.1.all safePrim && strictP r.1 0 && strictO r.1 0
 
 /-- The signatures C04 speaks about: an Exception or SystemExit whose recording does not fail. -/
 def Sig.contained (sig : Sig) : Bool :=
@@ -212,7 +649,7 @@ theorem execute_restores (cfg : Cfg) (hr : cfg.probe.stopRestores = true)
     (execute cfg style nested s t inject).1.Inv ∧ (execute cfg style nested s t inject).1.g = s.g := by
   have hc := hchk (sigOf cfg t inject)
   simp only [checkC05, Bool.and_eq_true, beq_iff_eq] at hc
-  obtain ⟨⟨hp, ho⟩, hsafe⟩ := hc
+  obtain ⟨⟨⟨⟨hp, ho⟩, hsafe⟩, _⟩, _⟩ := hc
   have hps : s.patches = [] := hs.1
   have hos : s.stdouts = [] := hs.2
   simp only [execute, baseOf_inv s hs]
@@ -289,5 +726,96 @@ theorem execute_normal (cfg : Cfg) (hchk : ∀ sig, checkC04 cfg.probe cfg.exec 
   refine ⟨hret, ?_, ?_⟩
   · rw [applyPrims_exception, hslot]; rfl
   · rw [applyPrims_feedbacks, hcap]; simp
+
+
+/-! ### Executions started at any depth of the stacks, with executions nested in them -/
+
+theorem noHit_of_safe {c : Ctl} (h : c.all safePrim = true) : NoHit c := by
+  intro hm
+  have := List.all_eq_true.mp h _ hm
+  simp [safePrim] at this
+
+/-- For a configuration that passes the check, `_execute` does the same whatever is on the stacks. -/
+theorem plan_any_base (cfg : Cfg) (hchk : ∀ sig, checkC05 cfg.probe cfg.exec sig = true) (b : Base) (sig : Sig) :
+    plan cfg.probe b sig cfg.exec = plan cfg.probe base0 sig cfg.exec := by
+  have hc := hchk sig
+  simp only [checkC05, Bool.and_eq_true, beq_iff_eq] at hc
+  exact plan_transfer cfg.probe b sig cfg.exec (noHit_of_safe hc.1.1.2)
+
+theorem applyPrimN_id (env : Env) (s : St) (q : Prim) : applyPrimN env id s q = applyPrim env s q := by
+  cases q <;> rfl
+
+theorem applyPrimsN_id (env : Env) (qs : List Prim) (s : St) : applyPrimsN env id s qs = applyPrims env s qs := by
+  induction qs generalizing s with
+  | nil => rfl
+  | cons q qs ih => rw [applyPrimsN_cons, applyPrims_cons, applyPrimN_id, ih]
+
+/-- Without nested executions `executeN` is `execute`. -/
+theorem executeN_id (cfg : Cfg) (style : TraceStyle) (nested : Bool) (s : St) (t : Termination) (inject : Bool) :
+    executeN cfg style nested s t inject id = execute cfg style nested s t inject := by
+  simp only [executeN, execute, applyPrimsN_id]
+
+/-- C05, one execution started in ANY state of the stacks (i.e. possibly while other executions are in progress
+    on the sandbox), whose code may itself start further executions that satisfy the same: both stacks and every
+    borrowed global are exactly what they were when it started. -/
+theorem executeN_frames (cfg : Cfg) (hr : cfg.probe.stopRestores = true)
+    (hchk : ∀ sig, checkC05 cfg.probe cfg.exec sig = true)
+    (style : TraceStyle) (nested : Bool) (hst : TraceOK style nested) (inner : St → St) (hin : Framed inner)
+    (s : St) (t : Termination) (inject : Bool) :
+    (executeN cfg style nested s t inject inner).1.patches = s.patches ∧
+    (executeN cfg style nested s t inject inner).1.stdouts = s.stdouts ∧
+    (executeN cfg style nested s t inject inner).1.g = s.g := by
+  have hc := hchk (sigOf cfg t inject)
+  simp only [checkC05, Bool.and_eq_true, beq_iff_eq] at hc
+  obtain ⟨⟨⟨⟨hp, ho⟩, hsafe⟩, hsp⟩, hso⟩ := hc
+  have hst' : TraceOK (envOf cfg style nested t).style (envOf cfg style nested t).nested := by
+    show TraceOK style (nested && cfg.imp.reentersTracer)
+    cases hre : cfg.imp.reentersTracer
+    · simpa using hst.to_false
+    · simpa using hst
+  simp only [executeN, plan_any_base cfg hchk]
+  exact applyPrimsN_frames (envOf cfg style nested t) hr hst' inner hin _ hsafe hsp hso hp ho s
+
+theorem stepOpN_frames (cfg : Cfg) (hr : cfg.probe.stopRestores = true)
+    (hchk : ∀ sig, checkC05 cfg.probe cfg.exec sig = true) (op : Op) (hst : TraceOK op.style op.nested)
+    (inner : St → St) (hin : Framed inner) (s : St) :
+    (stepOpN cfg s op inner).1.patches = s.patches ∧ (stepOpN cfg s op inner).1.stdouts = s.stdouts ∧
+    (stepOpN cfg s op inner).1.g = s.g := by
+  unfold stepOpN
+  split
+  · exact ⟨rfl, rfl, rfl⟩
+  · exact executeN_frames cfg hr hchk op.style op.nested hst inner hin s op.term op.inject
+  · exact executeN_frames cfg hr hchk op.style op.nested hst inner hin s op.term op.inject
+
+mutual
+/-- Every execution of the tree runs under a tracer style that restores the trace function. -/
+def NOp.traceOK : NOp → Bool
+  | .mk op inner => decide (TraceOK op.style op.nested) && NOp.allTraceOK inner
+def NOp.allTraceOK : List NOp → Bool
+  | [] => true
+  | n :: ns => n.traceOK && NOp.allTraceOK ns
+end
+
+mutual
+theorem runN_framed (cfg : Cfg) (hr : cfg.probe.stopRestores = true)
+    (hchk : ∀ sig, checkC05 cfg.probe cfg.exec sig = true) :
+    (n : NOp) → n.traceOK = true → Framed (runN cfg n)
+  | .mk op inner, h => by
+    simp only [NOp.traceOK, Bool.and_eq_true, decide_eq_true_eq] at h
+    intro s
+    simp only [runN]
+    exact stepOpN_frames cfg hr hchk op h.1 (runNs cfg inner) (runNs_framed cfg hr hchk inner h.2) s
+theorem runNs_framed (cfg : Cfg) (hr : cfg.probe.stopRestores = true)
+    (hchk : ∀ sig, checkC05 cfg.probe cfg.exec sig = true) :
+    (ns : List NOp) → NOp.allTraceOK ns = true → Framed (runNs cfg ns)
+  | [], _ => fun _ => ⟨rfl, rfl, rfl⟩
+  | n :: ns, h => by
+    simp only [NOp.allTraceOK, Bool.and_eq_true] at h
+    intro s
+    simp only [runNs]
+    obtain ⟨a1, a2, a3⟩ := runN_framed cfg hr hchk n h.1 s
+    obtain ⟨b1, b2, b3⟩ := runNs_framed cfg hr hchk ns h.2 (runN cfg n s)
+    exact ⟨b1.trans a1, b2.trans a2, b3.trans a3⟩
+end
 
 end Pedal.SandboxExec
